@@ -162,6 +162,7 @@ def run_case(ctx, name, params):
                 S.shutdown()
             return
         ctx.count("warmup_batches")
+        ctx.count("warmup_objective_calls", len(p.calls))      # a warm-up batch that never reaches the objective warms nothing up
         del p.failed[:]
         del p.calls[:]
     if iv_mode and r.random() < 0.6:
@@ -361,6 +362,7 @@ def run_case(ctx, name, params):
 
 def requirements(ctx):
     ctx.require("executions", 250)
+    ctx.require("warmup_objective_calls", 100)
     ctx.require("design_checks", 500)
     ctx.require("resample_checks", 200)
     ctx.require("untouched_design_checks", 20)
